@@ -10,7 +10,7 @@
    Verdict: ok | (bad (k <k>) (expected (<polls> <res>)...)).
    (spec <line>): the same judgement by a direct list computation that does not use Cancel.next. *)
 From Coq Require Import List NArith Arith Bool String.
-From Verif Require Import common.Sexp c07.Cancel.
+From Verif Require Import common.Sexp c07.Cancel c07.OneShot.
 From Verif Require c01vm.Run c01vm.VM c07.VMLink.
 From Verif Require Import c01vm.Syntax c01vm.Code c01vm.Compile c01vm.Natives.
 Import ListNotations.
@@ -218,7 +218,106 @@ Definition judge_c07vm (ast inp : sexp) (pcs runs : list sexp) : sexp :=
   | _, _ => A "undecodable"
   end.
 
-Definition run_line (l : list N) : list N :=
+(* ---- one-shot iterators (c07/OneShot.v): wrong variable counts, compile errors through Query.Run --------------------
+     (oneshot code (vars <hexname>...) <nvalues> <k|none> (obs (<polls> <r>)...))     Code.RunWithContext
+     (oneshot query <hex compile error> <k|none> (obs (<polls> <r>)...))              Query.RunWithContext
+     <r> = toomany | (expected <hexname>) | (cerr <hexmsg>) | ctx | done | other
+   The model computes OneShot.code_run / query_run and then the Iter history under cancel_at k (or never) for as many
+   calls as were observed: poll counts and results must be equal.  The machine itself is only reached in the contrast
+   case "right count, k = 0" (ctx.Err() at once, whatever the step function). *)
+Inductive os_err := OsTooMany | OsExpected (n : list N) | OsCErr (m : list N).
+Definition os_step (s : unit) : outcome unit (list N) os_err := Exhausted.
+
+Definition dec_os_res (e : sexp) : option (option (result (list N) os_err)) :=     (* Some None = "other" *)
+  match e with
+  | SList [t; Atom h] =>
+      match parse_hexs h with
+      | Some b => if atom_is "expected" t then Some (Some (RErr (OsExpected b)))
+                  else if atom_is "cerr" t then Some (Some (RErr (OsCErr b))) else None
+      | None => None
+      end
+  | Atom _ => if atom_is "toomany" e then Some (Some (RErr OsTooMany)) else if atom_is "ctx" e then Some (Some RCtx)
+              else if atom_is "done" e then Some (Some RDone) else if atom_is "other" e then Some None else None
+  | _ => None
+  end.
+Definition os_err_eqb (a b : os_err) : bool :=
+  match a, b with
+  | OsTooMany, OsTooMany => true
+  | OsExpected x, OsExpected y => list_N_eqb x y
+  | OsCErr x, OsCErr y => list_N_eqb x y
+  | _, _ => false
+  end.
+Definition os_res_eqb (a : result (list N) os_err) (b : option (result (list N) os_err)) : bool :=
+  match a, b with
+  | RErr x, Some (RErr y) => os_err_eqb x y
+  | RCtx, Some RCtx => true
+  | RDone, Some RDone => true
+  | _, _ => false
+  end.
+Fixpoint dec_os_obs (l : list sexp) : option (list (N * option (result (list N) os_err))) :=
+  match l with
+  | [] => Some []
+  | SList [Atom p; r] :: t =>
+      match parse_N p, dec_os_res r, dec_os_obs t with Some p, Some r, Some t => Some ((p, r) :: t) | _, _, _ => None end
+  | _ => None
+  end.
+Fixpoint dec_hex_atoms (l : list sexp) : option (list (list N)) :=
+  match l with
+  | [] => Some []
+  | Atom a :: t => match parse_hexs a, dec_hex_atoms t with Some b, Some t => Some (b :: t) | _, _ => None end
+  | _ => None
+  end.
+Definition enc_os_res (r : result (list N) os_err) : sexp :=
+  match r with
+  | RErr OsTooMany => A "toomany" | RErr (OsExpected n) => SList [A "expected"; Atom (print_hexs n)]
+  | RErr (OsCErr m) => SList [A "cerr"; Atom (print_hexs m)] | RCtx => A "ctx" | RDone => A "done" | RVal _ => A "value"
+  end.
+
+Definition judge_os (it : option (iter unit os_err)) (k : sexp) (obs : list sexp) : sexp :=
+  match it, dec_os_obs obs with
+  | Some it, Some obs =>
+      let done := if atom_is "none" k then Some never else option_map (fun k => cancel_at (N.to_nat k)) (match k with Atom a => parse_N a | _ => None end) in
+      match done with
+      | Some done =>
+          match iter_calls os_step done 3 (List.length obs) it with
+          | Some h =>
+              let exp := map (fun rc => (N.of_nat (iter_polls (snd rc)), fst rc)) h in
+              if (fix eq (a : list (N * result (list N) os_err)) (b : list (N * option (result (list N) os_err))) : bool :=
+                    match a, b with
+                    | [], [] => true
+                    | (p, r) :: a', (q, o) :: b' => N.eqb p q && os_res_eqb r o && eq a' b'
+                    | _, _ => false
+                    end) exp obs
+              then A "ok"
+              else SList [A "bad"; SList (map (fun pr => SList [Atom (print_N (fst pr)); enc_os_res (snd pr)]) exp)]
+          | None => A "model-out-of-fuel"
+          end
+      | None => A "undecodable"
+      end
+  | None, _ => SList [A "bad"; A "model-panic"]
+  | _, None => A "undecodable"
+  end.
+
+Definition judge_oneshot (rest : list sexp) : sexp :=
+  match rest with
+  | [kind; SList (tv :: vars); Atom nv; k; SList (to :: obs)] =>
+      if atom_is "code" kind && atom_is "vars" tv && atom_is "obs" to then
+        match dec_hex_atoms vars, parse_N nv with
+        | Some vars, Some nv => judge_os (code_run OsTooMany OsExpected vars (N.to_nat nv) tt) k obs
+        | _, _ => A "undecodable"
+        end
+      else A "undecodable"
+  | [kind; Atom ce; k; SList (to :: obs)] =>
+      if atom_is "query" kind && atom_is "obs" to then
+        match parse_hexs ce with
+        | Some m => judge_os (query_run (Name:=list N) OsTooMany OsExpected (CErr (OsCErr m))) k obs
+        | None => A "undecodable"
+        end
+      else A "undecodable"
+  | _ => A "undecodable"
+  end.
+
+Definition run_line_main (l : list N) : list N :=
   match parse l with
   | Some (SList [k; ast; inp; SList (tp :: pcs); SList (tr :: runs)]) =>
       if atom_is "c07vm" k && atom_is "pcs" tp && atom_is "runs" tr then print (judge_c07vm ast inp pcs runs)
@@ -233,3 +332,18 @@ Definition run_line (l : list N) : list N :=
   | Some e => print (run_sexp false e)
   | None => codes "unparsable"
   end.
+
+(* "(oneshot " lines go to the one-shot judge (also under the (both …) / (spec …) wrappers of checks/c07.py); the test is on
+   the raw prefix so that the other (long) lines are parsed once *)
+Fixpoint starts_with (p l : list N) : bool :=
+  match p, l with
+  | [], _ => true
+  | a :: p', b :: l' => N.eqb a b && starts_with p' l'
+  | _ :: _, [] => false
+  end.
+Definition run_line (l : list N) : list N :=
+  if starts_with (codes "(oneshot ") l then
+    match parse l with Some (SList (_ :: rest)) => print (judge_oneshot rest) | _ => codes "unparsable" end
+  else if starts_with (codes "(both (oneshot ") l || starts_with (codes "(spec (oneshot ") l then
+    match parse l with Some (SList [_; SList (_ :: rest)]) => print (judge_oneshot rest) | _ => codes "unparsable" end
+  else run_line_main l.
